@@ -155,9 +155,11 @@ PROPS.update({
              ['min_start is not read back (known finding A-27)'], design_ref='8/C13'),
     'C12': P('other', 'contract-based deductive verification of the two memoised recursions of CriticalPathCalculator: __forward / __backward are proved (recursion by contract, termination by rank, loop invariants) to '
              'establish the Bellman equations ES(n) = max(0, max(ES(l.start) + l.units)) and LF(n) = min(LF(l.end) - l.units) (ES(n) at sinks) for every node they set, never to change a value once set, and to be free of None arithmetic. '
-             'Level `other`: the construction of the network from the WBS (summary / inherited dependencies), the float test of calc and the mathematical lemma `Bellman solution = longest path, zero float = on a longest chain` are '
+             'The three constructors of the network are proved as well (contracts/network.py, nodes and arcs as heap objects with a ghost allocation flag): __new_node, __connect, and __add_work(id, units, predecessors) - exactly two new nodes, '
+             'one work arc with the given units registered under the id, one zero-length arc from the end of the arc of every listed predecessor id in list order, nothing that existed changes, no KeyError when the listed ids are registered. '
+             'Level `other`: which tasks and ids reach __add_work (__insert_task: summary / inherited dependencies), the float test of calc and the mathematical lemma `Bellman solution = longest path, zero float = on a longest chain` are '
              'outside the contracts; the bounded stand-in compares critical_path() with an exact rational longest-path computation.',
-             ['CriticalPathCalculator.__init__ / __insert_task / __add_work / __connect (network construction)', 'CriticalPathCalculator.calc (selection, tolerance)', '_find_clusters'],
+             ['CriticalPathCalculator.__init__ / __insert_task (which leaves and which dependency ids enter the network)', 'CriticalPathCalculator.calc (selection, tolerance)', '_find_clusters'],
              ['mathematical lemma (not machine-checked here): on a finite DAG the Bellman solution is the longest-path length'], design_ref='8/C12'),
     'C10': P('other', 'contract-based deductive verification of Task.clone: symbolically executed from the real source with instance attributes as a per-object map; proved: the copy is a new object, same id / estimate / spent, '
              'exactly the public instance attributes of the source with equal values (loop invariant over the keys of __dict__), no relations, source and all other tasks unchanged. Level `other`: WBS.__clone_tasks / __clone / subtree '
